@@ -844,7 +844,7 @@ def c15_cases(rng, tier):
                       'files': [('a.pakhi', prog(pre + ['মডিউল খ = "b.pakhi";', 'দেখাও "a";'])), ('b.pakhi', prog(pre + ['মডিউল গ = "a.pakhi";', 'দেখাও "b";']))], 'kind': 'inner-cycle'})
         cases.append({'src': prog(['মডিউল ক = "a.pakhi";', 'দেখাও "main";']),
                       'files': [('a.pakhi', prog(pre + ['মডিউল খ = "b.pakhi";', 'দেখাও "a";'])), ('b.pakhi', prog(pre + ['মডিউল গ = "c.pakhi";', 'দেখাও "b";'])), ('c.pakhi', prog(pre + ['মডিউল ঘ = "b.pakhi";', 'দেখাও "c";']))], 'kind': 'inner-cycle'})
-    cases += P3.import_graph_oddities() + P3.module_alias_programs() + P4.reimport_programs()
+    cases += P3.import_graph_oddities() + P3.module_alias_programs() + P4.reimport_programs() + P4.unfinished_module_programs()
     for stmt in P4.IMPORT_FORMS2:
         cases.append({'src': prog(['দেখাও "আগে";', stmt, 'দেখাও "পরে";']), 'files': [('mod.pakhi', 'দেখাও "mod";\n')], 'kind': 'import-forms'})
     return cases
